@@ -170,7 +170,11 @@ pub async fn run_sender_with_config(
 
     // Prepare SIGHUP stream (Unix only) or a never-completing future (non-Unix)
     #[cfg(unix)]
+    #[cfg(not(feature = "verif-hooks"))]
     let mut sighup = signal(SignalKind::hangup())?;
+    #[cfg(all(unix, feature = "verif-hooks"))]
+    let mut sighup =
+        crate::net::verif_hooks::SighupShim::new(signal(SignalKind::hangup())?);
 
     // Main loop - run housekeeping frequently like C version
     // Run housekeeping once before entering the main event loop so we start in a clean state.
